@@ -550,6 +550,7 @@ def run_harnesses(hs, tier='quick', need_replay=True):
         e = dict(cache[h['full']])
         e['cached'] = h['full'] not in set(t['full'] for t in todo)
         e['props'] = h['props']
+        e['covers'] = h.get('covers')
         outl.append(e)
     return outl
 
